@@ -209,6 +209,20 @@ CLAIMS.update({
          'two keys; std::hash<size_t> is the identity. environment::intern (a forwarding call) is not extracted.', '5 C42'),
 })
 
+CLAIMS.update({
+ 'C12': ('proof',
+         'Two-run relational contract on the real set_diff_context_from_opts (tools/abidiff.cc) with the real diff_context setters: '
+         'for every pair of option sets that differ only in the presentation options of the statement (--no-show-locs, --show-hex/'
+         '--show-dec, --show-bytes/--show-bits, --no-linkage-name, --no-show-relative-offset-changes) the resulting contexts are '
+         'equal on every verdict-relevant field (allowed categories, leaf mode, stats-only, soname/architecture change, '
+         'deleted/changed/added functions and variables, redundancy, unreferenced symbols, unreachable types, impacted interfaces, '
+         'suppressions), and each presentation option reaches its own context field. The verdict functions (unit verdict) are '
+         'compiled against stubs that expose no presentation getter.',
+         'Scoped to option wiring and the verdict predicates. That no other verdict-relevant code (comparison engine, filters) reads '
+         'a presentation flag is not decided; --no-corpus-path / --no-architecture are handled in abidiff main outside this contract.',
+         '5 C12'),
+})
+
 NA = {
  'C01': 'rests on reflexivity of ~40 mutually recursive equals() overloads, canonicalisation and DIE de-duplication over arbitrary type graphs (abg-ir.cc, abg-dwarf-reader.cc); outside the C++ subset CBMC 6.11 parses and not expressible as a contract on any reachable function',
  'C02': 'writer/reader pair over the whole IR and libxml2 trees; outside front-end reach (attribute escaping is claimed under C04)',
